@@ -214,11 +214,21 @@ TxSet(e) ==
 \* touched.  Like every transaction it is refused while another one is open, changes nothing when it is invalid or a
 \* dry run - and an invalid one is never answered with success (C03) - and is undone by cancel / expiry (C05).
 ReplCfg(e) == PairsToFun(Pairs(e.replace.upd))
+\* an ordinary intent travels with the replace intent: the combined effect is not modelled; what C03 says about any
+\* TransactionSet still applies - reported validation errors, or a dry run, mean that nothing happened
+ReplaceMixedClauses(e, o) ==
+  IF open.id # "-" THEN
+     {<<"C06", "SetRefusedWhileOpen", e.ret = "locked">>,
+      <<"C06", "RefusedSetNoEffect", NoEffect(e, o) /\ o.open = OpenProj>>}
+  ELSE {<<"C03", "MixedReplaceRejectedNoEffect", e.ret \in {"invalid", "error"} => NoEffect(e, o)>>,
+        <<"C03", "MixedReplaceDryNoEffect", e.dry => NoEffect(e, o)>>,
+        <<"C06", "NotWedgedAfterError", (e.ret # "ok" \/ e.dry) => o.open.id = "-">>}
 ReplaceClauses(e, o) ==
   LET cfg == ReplCfg(e)
       valid == ValidCfg(cfg, dis)
   IN
-  IF open.id # "-" THEN
+  IF Len(e.intents) > 0 THEN ReplaceMixedClauses(e, o)
+  ELSE IF open.id # "-" THEN
      {<<"C06", "SetRefusedWhileOpen", e.ret = "locked">>,
       <<"C06", "RefusedSetNoEffect", NoEffect(e, o) /\ o.open = OpenProj>>}
   ELSE IF ~valid THEN
@@ -243,7 +253,7 @@ TxReplace(e) ==
                    \cup (IF applied /\ ReplCfg(e) # device THEN {"C01"} ELSE {}))
      /\ intended' = o.I /\ mirror' = (IF e.envsync THEN o.d ELSE o.m) /\ device' = o.d
      /\ open' = IF open.id = "-" THEN NextOpen(o, e.tmo < 5000) ELSE NextOpen(o, open.short)
-     /\ txn' = IF applied THEN [valid |-> TRUE, id |-> e.id, req |-> {}, snap |-> SnapOf(intended, {}), dev |-> device, I |-> intended, repl |-> TRUE, m |-> mirror]
+     /\ txn' = IF applied THEN [valid |-> TRUE, id |-> e.id, req |-> ReqOf(e), snap |-> SnapOf(intended, ReqOf(e)), dev |-> device, I |-> intended, repl |-> TRUE, m |-> mirror]
                ELSE txn
      /\ ever' = ever \cup LeavesOf(o.I)
      /\ lastSet' = NoSet /\ dry' = NoDry /\ flt' = NoFlt
@@ -258,7 +268,7 @@ RollbackClauses(e, o) ==
    <<"C05", "StoreAsBefore", o.I = txn.I>>,
    <<"C05", "DeviceRestored", IF txn.repl THEN o.d = txn.dev   \* a replace intent touched the whole configuration
                               ELSE \A x \in TouchedLeaves(txn.snap, txn.req) : Get(o.d, x) = Get(txn.dev, x)>>,
-   <<"C05", "RunningRestoredAfterReplace", txn.repl => o.m = txn.m>>,
+   <<"C05", "RunningRestoredAfterReplace", (txn.repl /\ txn.req = {}) => o.m = txn.m>>,
    <<"C06", "ClosedAfterRollback", o.open.id = "-">>}
 
 Unchanged(e, o) == NoEffect(e, o)
